@@ -1053,6 +1053,10 @@ class _TRSTractList:
             elif isinstance(obj, cls._ok_iterables):
                 for obj_deeper in obj:
                     into.append(obj_deeper)
+            elif isinstance(obj, str):
+                # Do not iterate over a string.
+                raise TypeError(
+                    f"{cls._typeerror_msg} Cannot accept {type(obj)!r}.")
             else:
                 # Assume it's another list-like object.
                 for obj_deeper in obj:
